@@ -518,6 +518,55 @@ def r8_scratch(facts):
                                    '%s changes the rate parameters behind %s() but %s keeps the size computed for the previous parameters: at another chip / PCM rate the per-block offset %s(frames) runs past the buffer' % (what, short(f), short(M), short(f))))
     if n < 1 and facts.view in ('V0', 'V1'):
         raise build.AnalysisBroken('C03.R8: no member buffer advanced by a rate-dependent size found (expected MameOPNA::Impl::psgbuffer in nativeGenerateN)')
+    if facts.view == 'V0':
+        out += r8_consumer()
+    return out
+
+
+def r8_consumer():
+    """(d) the consumer of that scratch buffer: LinearResampler::interpolate(src, nSamples, intrSize) gets planes of intrSize
+    samples.  The sample under the read position, src[pan][floor(n * ratio)], exists by the definition of
+    calculateInternalSampleSize (n < nSamples); a neighbour src[pan][i + k], k > 0, exists only if i + k < intrSize: with a
+    down-sampling ratio below 1 (PCM-rate mode, sample rate above the PSG rate) the last position has no right neighbour."""
+    from ..core import Facts
+    out = []
+    cf = Facts('CORES')
+    n = 0
+    for fn in cf.all_fns():
+        if short(fn.name) != 'interpolate' or 'Linear' not in fn.name or fn.tree is None:
+            continue
+        size_par = fn.params[2]['id'] if len(fn.params) >= 3 else None
+        src_par = fn.params[0]['id']
+        for b, j, st in fn.cfg.stmts(conds=True):
+            for x in walk(st['s']):
+                if x.get('k') != 'ArraySubscriptExpr':
+                    continue
+                base = strip(x.get('b'))
+                if not (base.get('k') == 'ArraySubscriptExpr' and strip(base.get('b')).get('id') == src_par):
+                    continue
+                idx = strip(x.get('i'))
+                k = 0
+                v = idx
+                if idx.get('k') == 'BinaryOperator' and idx.get('op') == '+' and const_of(idx['r']) is not None:
+                    k, v = const_of(idx['r']), strip(idx['l'])
+                n += 1
+                if k <= 0:
+                    out.append(Obl('C03.R8', fn.name, 'src[pan][%s]' % show(idx)[:20], st['loc'], 'discharged',
+                                   why='the sample under the read position: floor(n * ratio) < ceil(nSamples * ratio) = intrSize for n < nSamples', nontrivial=False))
+                    continue
+                ok = False
+                for f in guard_facts(fn, b, st):
+                    if f[0] != 'cmp' or f[1] not in ('<', '<='):
+                        continue
+                    l, r = strip(f[2]), strip(f[3])
+                    if r.get('id') == size_par and l.get('k') == 'BinaryOperator' and l.get('op') == '+' and (const_of(l['r']) or 0) >= k + (1 if f[1] == '<=' else 0) \
+                            and any(y.get('id') == v.get('id') for y in walk(l['l'])):
+                        ok = True
+                out.append(Obl('C03.R8', fn.name, 'src[pan][%s]' % show(idx)[:20], st['loc'], 'discharged' if ok else 'finding',
+                               why='guarded by %s + %d < intrSize' % (show(v), k) if ok else
+                               'the neighbour sample at %s is read without comparing the index with intrSize: for a down-sampling ratio below 1 (PCM-rate mode, sample rate above the PSG rate) the last read lies one element past the scratch buffer and lands in the audio' % show(idx)[:20]))
+    if n < 3:
+        raise build.AnalysisBroken('C03.R8: source reads of LinearResampler::interpolate not found (%d)' % n)
     return out
 
 
